@@ -37,7 +37,9 @@ def main(argv=None) -> int:
 
     if args.update_obligations:
         os.environ["VERIF_UPDATING_OBLIGATIONS"] = "1"
-    report = Report(args.prop, args.tier, seed, mod.LEVEL)
+    from checks.common import LEVELS
+
+    report = Report(args.prop, args.tier, seed, LEVELS.get(args.prop, mod.LEVEL))
     try:
         mod.run(report, args.tier, seed)
     except Exception as e:
